@@ -5,53 +5,60 @@ writeInitParams, read/write wrappers, ReadHandler/CommonReadHandler/nopoll flags
 behind it) is executed *in the exploring thread* - no OS thread, no real time:
 
   * `frappy.modulebase.time` is rebound to a shim whose time() returns the virtual clock and advances it by 1 us per call
-    (so a zero interval makes progress); the clock starts at an epoch-like value (1e6 s [+ phase]) because the poll
-    code treats last_main == 0 as "due now";
-  * the trigger event of the thread (`io.triggerPoll`) is a FakeEvent: wait(t) returns at once if set, else advances the
-    clock by t and ends the run by raising the private BaseException `Horizon` when the horizon is reached;
+    (so a zero interval makes progress; a body that keeps reading the clock without calling a driver or sleeping - a busy
+    spin, seen only with mutants - is accelerated: after 64 such readings the step doubles per reading up to 10 ms);
+    the clock starts at an epoch-like value (1e6 s + phase) because the poll code treats last_main == 0 as "due now";
+  * the trigger event of the thread (`<owner>.triggerPoll`) is a FakeEvent: wait(t) returns at once if set, else advances
+    the clock by t and ends the run by raising the private BaseException `Horizon` when the horizon is reached;
   * the drivers' doPoll / read_* / read handlers / initialReads / write_* are fakes that ask the explorer.
 
 Choice points and their answers (answer 0 = default):
   * every fake driver call: (duration, outcome) in {0, 0.3 x I, 2.5 x I} x {ok, SECoPError (HardwareError), silent
     SECoPError, CommunicationFailedError, ValueError}; I = the module's configured pollinterval for doPoll (0.1 if that
-    is 0), its slowinterval for everything else; default (0, ok);
+    is 0), its slowinterval for everything else; default (0, ok) - or (0.3 x I, ok) in configurations with the 'busy' base
+    profile (every call takes time; needed for a zero poll interval, where virtual time would not advance otherwise);
   * every wake-up (a wait on the trigger event that really sleeps): an external event, issued by "another thread" after
     a quarter of the sleep, in {none} + per polled module {pollinterval changed to each other value of {0.1, 1, 5} (through
     the real write_pollinterval wrapper -> announceUpdate -> PollInfo.update_interval), setFastPoll(True),
     setFastPoll(False), pollInfo.trigger(immediate=True)}; default none.
-All executions with <= 2 (quick) / <= 3 (thorough) non-default answers are enumerated by vf.engines.enumx.
-explore_deviations (stateless DFS: replay forced prefix, then defaults), per configuration = (module layout, (pollinterval,
-slowinterval) per polled module, clock phase).  The horizon of an execution is 3 x the largest interval of the
-configuration in virtual time, and at most CAP choice points (a saturated thread or fast polling would otherwise make
-one execution arbitrarily long); in the thorough tier the 3rd deviation is restricted to the WINDOW choice points
-following the 2nd one (stated in the evidence).
+All executions with <= 2 non-default answers are enumerated by vf.engines.enumx.explore_deviations (stateless DFS: replay
+forced prefix, then defaults), per configuration = (module layout, (pollinterval, slowinterval) per polled module, clock
+phase, base profile); the thorough tier has more and larger configurations (3 and 4 modules, all interval ratios) and
+<= 3 deviations on the small ones (the 3rd within WINDOW = 4 choice points after the 2nd).  Layouts: a module with its own
+thread; 2-4 modules served by the thread of a shared io module (plain, or polled itself with pollinterval 0 / 5);
+parameters polled through read_*, ReadHandler (per key), CommonReadHandler (group), @nopoll (plain and handler), a
+configured writable parameter (writeInitParams).  The horizon of an execution is 3 x the largest interval of the
+configuration in virtual time, and at most CAP (44 quick / 64 thorough) choice points (a saturated thread or fast
+polling would otherwise make one execution arbitrarily long).
 
 The node is built once per shard through vf.nodes.Node (real Server._processCfg, start=False so that no thread is
 started) and *reset* between executions (parameter value/timestamp/readerror, writeDict, callbacks, pollInfo); the
-explorer's prefix-determinism check and a final comparison of the default execution on a freshly built node guard the
-reset; replay() always uses a fresh node.
+explorer's prefix-determinism check and a final comparison of the default execution with that on a freshly built node
+guard the reset; replay() always uses a fresh node.
 
 Oracle = monitors on the virtual-time trace, phrased from the statement (nothing is read from PollInfo):
   M1 main poll ("each module's main poll is started again no later than its poll interval plus one sweep of that
      thread's work"; "changing the poll interval or switching fast polling takes effect from the next wake-up"):
      for consecutive doPoll starts s, s' of a module (the end of the run counts as s') let D = s + I where I is the
      interval in effect; an interval-affecting external event at tc moves D to tc + I_new.  Between D and s'
-       (a) the thread must not sleep (total waiting time <= EPS = 1 ms), and
-       (b) no poll function (same module, same function[, same handler key]) may be *started* twice
+       (a) the thread must not be idle: time not spent inside a driver call <= EPS = 1 ms, and
+       (b) no poll function (same module, same function, same handler key) may be *started* twice
      - i.e. the poll comes at the latest one sweep (every other function once) after it became due.
   M2 slow poll ("every polled parameter is refreshed no later than a bounded multiple of the slow interval"): for
-     consecutive reads r, r' of a polled parameter (end of run counts as r') the time the thread spent *waiting*
-     between r and r' is <= 2 x slowinterval (+EPS).
+     consecutive reads r, r' of a polled parameter (end of run counts as r') the time the thread was idle (not inside a
+     driver call) between r and r' is <= 2 x slowinterval (+EPS).
   M3 a read function marked @nopoll (plain or handler) is never called during the run.
   M4 the thread body ends only by the horizon: an exception leaving the body, or a return, is "the thread stopped".
      Delays of other modules by failing/slow functions are judged by M1/M2 on every module.
-  M5 the started-callback fires exactly once (at most once at any time; exactly once as soon as the body reached its
-     main loop).  The statement does not name the callback; it is the observable of "a failure at start-up does not stop
-     the thread from coming up" (requested by the design, section C13), reported under its own signature.
+  M5 the started-callback fires at most once, and exactly once as soon as the body has reached its main loop.  The
+     statement does not name the callback; it is the observable of "a failure at start-up does not stop the thread from
+     coming up" (requested by the design, section C13) and is reported under its own signature.
 
 Oracle calibration (weaker readings taken, derived by reading __pollThread of the unchanged tree):
   * "one sweep of work" is not turned into a number of seconds: M1(b) counts starts instead (weaker than any bound in
-    seconds that sums one duration per function, and independent of how long the explorer makes a call).
+    seconds that sums one duration per function, and independent of how long the explorer makes a call).  The loop does
+    all due main polls and then ONE slow read per turn, so between "due" and "started" there is at most the rest of a
+    turn and the main polls of modules earlier in the list: every function at most once.
   * the first main poll: the anchor is the started-callback with D = t_started + max(I, 0.1): after a communication
     failure at start-up the code deliberately waits 0.1 s "for reconnection" before polling; tolerated.
   * after an interval-affecting event D := tc + I_new also when that is *later* than the old D (slowing down is allowed
@@ -60,11 +67,13 @@ Oracle calibration (weaker readings taken, derived by reading __pollThread of th
   * pollinterval changed while fast polling: the code keeps the fast interval (update_interval ignores the change); the
     statement does not decide this, so I_new = max(fast interval, new value) is allowed. fast interval = 0.25 (default
     argument of setFastPoll). trigger(immediate=True) only may make polls earlier; nothing is demanded for it.
-  * M2: the multiple is 2 and only *waiting* time counts ("refreshed within 2 x slowinterval plus whatever work the
+    Only upper bounds are checked: polling *more often* than the interval (e.g. fast poll never switched off) is not a
+    violation of the statement.
+  * M2: the multiple is 2 and only *idle* time counts ("refreshed within 2 x slowinterval plus whatever work the
     thread did in between"), because one slow read is made per loop turn and main polls go first: under load the time
     between two reads of a parameter grows with (#parameters x main-poll work) and the statement only says "bounded
-    multiple".  Measured on the unchanged tree the waiting time between two reads never exceeds 1.5 x slowinterval (a
-    parameter read in the second half of a slow period is skipped once by the `timestamp + slowinterval/2` rule).
+    multiple".  On the unchanged tree the idle time between two reads never exceeds 1.5 x slowinterval (a parameter read
+    in the second half of a slow period is skipped once by the `timestamp + slowinterval/2` rule).
     The reads made at start-up count as reads; if they were cut short by a communication failure the started-callback
     time is the anchor.
   * a CommonReadHandler group is one polled item (any call of the common function refreshes all its parameters);
@@ -72,10 +81,8 @@ Oracle calibration (weaker readings taken, derived by reading __pollThread of th
   * exceptions "of any kind" = Exception subclasses (ValueError as the representative non-SECoP error);
     KeyboardInterrupt/SystemExit are not injected.
 Not covered: CPU time of the loop itself, real thread interleavings of setFastPoll/update_interval with the loop
-(the event/clear race on the trigger event), reconnect callbacks of real IO modules (C16).
+(the set/clear race on the trigger event), reconnect callbacks of real IO modules (C16).
 """
-import itertools
-
 from vf import core
 from vf.engines import enumx
 
@@ -89,6 +96,13 @@ IVALS = (0.1, 1, 5)
 DURS = (0, 0.3, 2.5)
 OUTS = ('ok', 'err', 'silent', 'comfail', 'valueerror')
 CALL_ANSWERS = [(d, o) for d in DURS for o in OUTS]       # index 0 = (0, 'ok')
+
+
+def call_answers(base):
+    """answers of a driver call; the default (index 0) is (0, ok), or (0.3 x I, ok) for the 'busy' base profile in which
+    every call takes time (needed for a zero poll interval: virtual time would not advance otherwise)"""
+    first = (0.3, 'ok') if base == 'busy' else (0, 'ok')
+    return [first] + [x for x in CALL_ANSWERS if x != first]
 EVENT_FRACTION = 0.25
 
 
@@ -117,11 +131,25 @@ class Run:
         self.capped = False
         self.event_alphabet = None
         self.modules = {}
+        self.spin = 0
+        self.tick = TICK
+        self.spun = False
+        self.answers = call_answers(cfg.get('base', 'idle'))
 
     # --- clock
     def time(self):
-        self.t += TICK
+        # 1 us per clock reading; a body that keeps reading the clock without calling a driver or sleeping (a busy
+        # spin) is accelerated: after 64 such readings the step doubles per reading (at most 10 ms)
+        self.spin += 1
+        if self.spin > 64:
+            self.tick = min(self.tick * 2, 0.01)
+            self.spun = True
+        self.t += self.tick
         return self.t
+
+    def worked(self):
+        self.spin = 0
+        self.tick = TICK
 
     def choice(self, n):
         if self.t >= self.horizon:
@@ -139,8 +167,9 @@ class Run:
 
     # --- driver calls
     def call(self, mod, fn, interval):
-        i, a = self.choice(len(CALL_ANSWERS))
-        dur, out = CALL_ANSWERS[a]
+        self.worked()
+        i, a = self.choice(len(self.answers))
+        dur, out = self.answers[a]
         dur *= interval
         if a:
             self.taken.append((i, f'{mod.name}.{fn}: {dur:g}s {out}'))
@@ -156,6 +185,7 @@ class Run:
     def wait(self, event, timeout):
         if event.flag:
             return True
+        self.worked()
         t0 = self.t
         timeout = 999 if timeout is None else timeout
         i, a = self.choice(len(self.event_alphabet))
@@ -466,9 +496,9 @@ class World:
 # ---------------------------------------------------------------------------------------------
 # monitors
 
-def waiting(waits, a, b):
-    """time spent in waits within (a, b)"""
-    return sum(max(0.0, min(w1, b) - max(w0, a)) for w0, w1 in waits)
+def idle_time(calls, a, b):
+    """time within (a, b) the thread did not spend inside a driver call (sleeping - or spinning)"""
+    return (b - a) - sum(max(0.0, min(c[4], b) - max(c[3], a)) for c in calls)
 
 
 def rel(run, t):
@@ -548,11 +578,11 @@ def judge(world, run):
                 continue
             # a doPoll start or the end of the run
             if due is not None and t > due:
-                idle = waiting(waits, due, t)
+                idle = idle_time(calls, due, t)
                 what = f'{name}.doPoll' + (' never started again' if r[0] == 'end' else f' started at t={rel(run, t)}')
                 if idle > EPS:
-                    res.append((f'C13:main-poll:thread-sleeps-past-due-time:after={after}',
-                                f'{what}, was due at t={rel(run, due)} (interval {ival:g}); the thread waited '
+                    res.append((f'C13:main-poll:thread-idle-past-due-time:after={after}',
+                                f'{what}, was due at t={rel(run, due)} (interval {ival:g}); the thread was idle (not in any driver call) for '
                                 f'{idle:.4g}s in between'))
                 else:
                     cnt = {}
@@ -577,20 +607,20 @@ def judge(world, run):
                     last = r[1] if last is None else last
                 elif r[0] == 'call' and r[1] == name and r[2] in fns:
                     if last is not None:
-                        idle = waiting(waits, last, r[3])
+                        idle = idle_time(calls, last, r[3])
                         if idle > 2 * si + EPS:
                             res.append((f'C13:slow-poll:not-refreshed-within-2-slowintervals:{FNKIND[fns[0]]}',
                                         f'{name}.{label}: read at t={rel(run, last)} and next at t={rel(run, r[3])}; the '
-                                        f'thread waited {idle:.4g}s in between (slowinterval {si:g})'))
+                                        f'thread was idle for {idle:.4g}s in between (slowinterval {si:g})'))
                             break
                     last = r[3]
             else:
                 if last is not None:
-                    idle = waiting(waits, last, t_end)
+                    idle = idle_time(calls, last, t_end)
                     if idle > 2 * si + EPS:
                         res.append((f'C13:slow-poll:not-refreshed-within-2-slowintervals:{FNKIND[fns[0]]}',
                                     f'{name}.{label}: last read at t={rel(run, last)}, not again until the end of the run '
-                                    f't={rel(run, t_end)}; the thread waited {idle:.4g}s in between (slowinterval {si:g})'))
+                                    f't={rel(run, t_end)}; the thread was idle for {idle:.4g}s in between (slowinterval {si:g})'))
     return res
 
 
@@ -604,29 +634,30 @@ def outcome_key(run, verdicts):
 # configurations and shards
 
 def configs(tier):
-    """(layout, [(pollinterval, slowinterval) per polled module], phase)"""
+    """list of {'layout', 'ivals': [(pollinterval, slowinterval) per polled module], 'phase', 'base', 'bound'}"""
     res = []
 
-    def add(layout, ivals, phase=0.37):
+    def add(layout, ivals, phase=0.37, base='idle'):
         n = len(LAYOUTS[layout][1])
         if len(ivals) == 1:
             ivals = ivals * n
-        res.append({'layout': layout, 'ivals': [list(x) for x in ivals], 'phase': phase})
+        res.append({'layout': layout, 'ivals': [list(x) for x in ivals], 'phase': phase, 'base': base, 'bound': 2})
 
     matched = [(0.1, 0.1), (1, 2), (5, 15), (5, 2)]
     for pair in matched:
         add('A', [pair])
     add('A', [(1, 2)], phase=0)
     add('S', [(1, 0.1)])
-    add('S', [(0.1, 2)])
     add('io+S+T', [(1, 2)])
     add('io+S+T', [(5, 15), (1, 2)])
     add('io+S+T', [(0.1, 0.1), (1, 2)])
     add('io+A+S', [(5, 15)])
     add('io+A+B', [(1, 2)])
-    add('IO+S', [(0, 2), (1, 2)])
-    add('IO+S', [(5, 15), (1, 2)], phase=0)
+    add('IO+S', [(0, 2), (1, 2)], base='busy')
+    add('io+S+T', [(1, 2)], base='busy')
     if tier != 'quick':
+        add('IO+S', [(5, 15), (1, 2)], phase=0)
+        add('S', [(0.1, 2)])
         for pair in matched:
             add('io+A+B', [pair])
             add('IO+A', [pair])
@@ -639,13 +670,26 @@ def configs(tier):
         add('io+A+S+T', [(5, 2), (1, 2), (0.1, 2)])
         add('io+S+T+U+V', [(1, 2)])
         add('io+S+T+U+V', [(5, 15), (1, 2), (0.1, 0.1), (5, 2)])
-        add('IO+B+S+T', [(0, 2), (1, 2), (5, 2), (1, 0.1)])
+        add('IO+B+S+T', [(0, 2), (1, 2), (5, 2), (1, 0.1)], base='busy')
+        add('io+A+B', [(0.1, 0.1), (1, 2)], base='busy')
+        # three deviations (the third within WINDOW choice points after the second) on the small configurations
+        deep = []
+        for pair in matched:
+            deep.append(('A', [pair]))
+            deep.append(('S', [pair]))
+        deep += [('io+S+T', [(1, 2)]), ('IO+S', [(1, 2)])]
+        for layout, ivals in deep:
+            add(layout, ivals)
+            new = res.pop()
+            res = [c for c in res if c != new]       # the deeper exploration includes the shallower one
+            res.append(dict(new, bound=3))
     return res
 
 
 def bounds(tier):
-    return dict(bound=2, cap=56, window=None, nshards=12) if tier == 'quick' else \
-        dict(bound=3, cap=64, window=6, nshards=48)
+    """cap = horizon in choice points; window = how far behind the 2nd deviation the 3rd may lie (configurations with
+    bound 3, thorough only)"""
+    return dict(cap=44, window=4, nshards=12) if tier == 'quick' else dict(cap=64, window=4, nshards=24)
 
 
 def explore(cfg, shard, b, part, only_forced=None):
@@ -666,10 +710,11 @@ def explore(cfg, shard, b, part, only_forced=None):
             run_one(only_forced, True)
         else:
             allow = None
-            if b['window']:
-                def allow(forced, p, w=b['window'], full=b['bound'] - 1):
-                    return len(forced) < full or p - max(forced) <= w
-            enumx.explore_deviations(run_one, b['bound'], shard=shard, allow=allow)
+            bound = cfg.get('bound', 2)
+            if bound > 2:
+                def allow(forced, p, w=b['window']):
+                    return len(forced) < 2 or p - max(forced) <= w
+            enumx.explore_deviations(run_one, bound, shard=shard, allow=allow)
             # the reset between executions must be as good as a fresh node
             fresh = World(cfg)
             try:
@@ -691,6 +736,7 @@ def record(part, cfg, forced, run, verdicts):
     part.extra['driver_calls'] += run.ncalls
     part.extra['wakeups'] += sum(1 for r in run.trace if r[0] == 'wait')
     part.extra['runs_ended_by_choice_point_horizon'] += 1 if run.capped else 0
+    part.extra['runs_with_spinning_thread'] += 1 if run.spun else 0
     part.extra['failing_calls_survived'] += sum(1 for r in run.trace if r[0] == 'call' and r[5] != 'ok') \
         if run.end[0] == 'horizon' else 0
     part.outcomes[outcome_key(run, verdicts)] += 1
@@ -699,8 +745,12 @@ def record(part, cfg, forced, run, verdicts):
                      'driver_calls': run.ncalls, 'virtual_seconds': rel(run, run.t_end)})
     for sig, detail in verdicts:
         case = {'cfg': cfg, 'forced': sorted([p, a] for p, a in forced.items()), 'cap': run.cap}
-        part.violation(sig, case, f'{cfg["layout"]} intervals={cfg["ivals"]} phase={cfg["phase"]}; deviations: '
-                       f'{[d for _, d in run.taken] or "none"}; {detail}')
+        text = (f'{cfg["layout"]} (pollinterval, slowinterval)={cfg["ivals"]} phase={cfg["phase"]} base={cfg.get("base", "idle")}; '
+                f'deviations: {[d for _, d in run.taken] or "none"}; {detail}')
+        old = part.violations.get(sig)
+        part.violation(sig, case, text)
+        if old is not None and len(case['forced']) < len(old[1]['forced']):
+            old[1], old[2] = case, text[:2000]       # prefer the witness with fewer deviations
 
 
 def shard_fn(shard):
@@ -713,19 +763,26 @@ def shard_fn(shard):
 def run(ctx):
     b = bounds(ctx.tier)
     cfgs = configs(ctx.tier)
+    only = getattr(ctx, 'only', None)
+    if only:                       # debugging aid (--only <layout>[,<layout>]): never used for a verdict that is reported
+        cfgs = [c for c in cfgs if c['layout'] in only]
+        ctx.exhaustive = False
     shards = [(cfg, (i, b['nshards'])) for cfg in cfgs for i in range(b['nshards'])]
     ctx.pmap(shard_fn, shards, name='poll_thread')
+    deep = [c for c in cfgs if c['bound'] > 2]
     ctx.rule = (
-        'enumeration: per configuration (module layout x (pollinterval, slowinterval) per polled module x clock phase) every '
-        f'execution of the real Module.__pollThread body in virtual time with <= {b["bound"]} non-default environment answers; '
-        'choice points = every fake doPoll/read_*/handler read/initialReads/write_* call (3 durations x 5 outcomes) and every '
+        'enumeration: per configuration (module layout x (pollinterval, slowinterval) per polled module x clock phase x base '
+        'duration profile) every execution of the real Module.__pollThread body in virtual time with <= 2 non-default '
+        'environment answers' + (f' (<= 3 on {len(deep)} small configurations, the 3rd within {b["window"]} choice points after '
+                                 'the 2nd)' if deep else '') +
+        '; choice points = every fake doPoll/read_*/handler read/initialReads/write_* call (3 durations x 5 outcomes) and every '
         'real sleep on the trigger event (external event: none / pollinterval change / fast poll on / off / immediate trigger, '
-        f'per polled module); horizon = 3 x largest interval and at most {b["cap"]} choice points'
-        + (f'; the last deviation lies within {b["window"]} choice points after the previous one' if b['window'] else '') +
-        '. evaluations = executions; distinct_nontrivial = executions with at least one deviation (all distinct); '
+        f'per polled module); horizon = 3 x largest interval and at most {b["cap"]} choice points. '
+        'evaluations = executions; distinct_nontrivial = executions with at least one deviation (all distinct); '
         'states = distinct answer sequences; transitions = driver calls + sleeps + events executed')
-    ctx.coverage.update(configurations=len(cfgs), bound_completed=f'<= {b["bound"]} deviations per execution'
-                        + (f' (3rd within {b["window"]} choice points of the 2nd)' if b['window'] else ''),
+    ctx.coverage.update(configurations=len(cfgs),
+                        bound_completed='<= 2 deviations per execution'
+                        + (f'; <= 3 (3rd within {b["window"]} choice points of the 2nd) on {len(deep)} configurations' if deep else ''),
                         layouts=sorted({c['layout'] for c in cfgs}))
     ctx.assume('durations, outcomes, intervals and events outside the stated alphabets are not covered',
                'external events happen while the thread sleeps (after a quarter of the sleep), never during a driver call',
